@@ -123,6 +123,15 @@ var c11CuratedFamilies = []c11Family{
 		},
 		Roots: []c11Root{{Text: "@bad1"}, {Text: "[@bad1]"}, {Text: "{\n  \"x\": @obj\n}"}},
 	},
+	{ // rule sets with several faults of one kind (a format type next to two or three rules it does
+		// not admit; two unknown rules): which one Check names belongs to the result
+		Roots: []c11Root{
+			{Text: "\"a@b.co\" // {type: \"email\", minLength: 1, maxLength: 20, regex: \"a\"}"},
+			{Text: "{\n  \"u\": \"2021-01-02\" // {regex: \"2\", type: \"date\", maxLength: 12}\n}"},
+			{Text: "5 // {foo: 1, bar: 2}"},
+			{Text: "[\n  \"550e8400-e29b-41d4-a716-446655440000\" // {maxLength: 40, minLength: 2, type: \"uuid\"}\n]"},
+		},
+	},
 	{ // schemas without a value (empty, blank, only a comment) that receive types all the same
 		Types: []lib.TypeDef{{Name: "@id", Text: "1"}, {Name: "@name", Text: "\"n\""}},
 		Roots: []c11Root{{Text: ""}, {Text: "  \n"}, {Text: "# only a comment\n"}},
@@ -180,6 +189,7 @@ var c11CuratedDocs = []c11Doc{
 	{Text: `{"left": 1, "right": 2, "x": "s"}`}, {Text: `{"left": 1, "right": 2, "y": true, "z": null}`}, {Text: `[{"left": 1, "right": 2, "x": "s", "y": false, "z": null, "own": 3}]`},
 	{Text: `{"a": 1,}`}, {Text: ``}, {Text: `   `}, {Text: `[1, 2`}, {Text: `{"k": 1} trailing`, Trailing: true}, {Text: `{"k": 1} x`}, {Text: `1`}, {Text: `null`},
 	{Text: "{\n  \"k\" : [ true , false , null ] \n}\n"},
+	{Text: `{"id": 12E+2, "tags": ["a"], "opt": 25e-1}`}, {Text: `[1e2, 7, 30E+1, 2]`},
 	{Text: `{"it": {"id": 5}}`}, {Text: `{"it": {"id": "x"}}`}, {Text: `[{"id": true, "tags": [false]}]`}, {Text: `{"it": {"id": 5, "tags": ["a"]}}`},
 }
 
@@ -192,6 +202,8 @@ var c11CuratedEnums = []string{
 
 var c11CuratedRegexes = []string{
 	`/^(foo|bar|ba[a-z]{1,3})$/`, `/abc/`, `/[0-9]{2,5}x|y[a-f]+/`, `/a\/b/`, `/(/`, `abc`, `/abc`, `/a{1,4}b?c*/ trailing`,
+	// patterns with assertions: what the generator draws first need not match
+	`/[a-z ]{2}\b[a-z ]{2}/`, `/[a-c ]{3}\b[x-z ]{3}/`, `/^[a-z]{2}$|\B[0-9]\B/`,
 }
 
 // c11GenPool builds a random pool: one generated family (type graph shared by several roots),
@@ -522,19 +534,22 @@ var c11ExhPools = []c11ExhPool{
 		Docs:     []c11Doc{{Text: `{"left": 1, "right": 2, "x": "s"}`}}}},
 	{"a schema without a value that receives types, a root naming a type it was not given + a document", c11Pool{
 		Families: []c11Family{
-			{Types: c11CuratedFamilies[8].Types, Roots: c11CuratedFamilies[8].Roots[:1]},
-			{Roots: c11CuratedFamilies[9].Roots[:1]},
+			{Types: c11CuratedFamilies[9].Types, Roots: c11CuratedFamilies[9].Roots[:1]},
+			{Roots: c11CuratedFamilies[10].Roots[:1]},
 		},
 		Docs: []c11Doc{{Text: `{"k": 1}`}}}},
 	{"one type object in two roots binding a name it references to different types + a document", c11Pool{
-		Families: []c11Family{{Types: c11CuratedFamilies[10].Types, Roots: c11CuratedFamilies[10].Roots[:2]}},
+		Families: []c11Family{{Types: c11CuratedFamilies[11].Types, Roots: c11CuratedFamilies[11].Roots[:2]}},
 		Docs:     []c11Doc{{Text: `{"it": {"id": 5}}`}}}},
 	{"one type object legal in the first root and illegal in the second (a name it references is missing / bound to a number) + a document", c11Pool{
-		Families: []c11Family{{Types: c11CuratedFamilies[11].Types, Roots: c11CuratedFamilies[11].Roots[:3]}},
+		Families: []c11Family{{Types: c11CuratedFamilies[12].Types, Roots: c11CuratedFamilies[12].Roots[:3]}},
 		Docs:     []c11Doc{{Text: `{"it": {"owner": 5}}`}}}},
 	{"types bringing different types of their own under one name + a document", c11Pool{
-		Families: []c11Family{{Types: c11CuratedFamilies[12].Types, Roots: c11CuratedFamilies[12].Roots[:2]}},
+		Families: []c11Family{{Types: c11CuratedFamilies[13].Types, Roots: c11CuratedFamilies[13].Roots[:2]}},
 		Docs:     []c11Doc{{Text: `{"cat": {"id": 7}, "dog": {"tag": 7}}`}}}},
+	{"rule sets with several faults of one kind + a document with exponent numerals", c11Pool{
+		Families: []c11Family{{Roots: []c11Root{c11CuratedFamilies[8].Roots[0], c11CuratedFamilies[8].Roots[2], c11CuratedFamilies[4].Roots[0]}}},
+		Docs:     []c11Doc{{Text: `{"id": 12E+2, "tags": ["a", "b"], "opt": 15e-1}`}}}},
 	{"two allOf parents, key shortcut roots + a trailing-characters document", c11Pool{
 		Families: []c11Family{{Types: c11CuratedFamilies[5].Types, Roots: c11CuratedFamilies[5].Roots[:2]}},
 		Docs:     []c11Doc{{Text: `{"p1": 1, "own": true, "kk2": 5} x`, Trailing: true}}}},
